@@ -216,12 +216,12 @@ Definition orth_conns (moore torus : bool) (dims : list Z) (c : coord) : list (c
   then conns_2d torus dims (if moore then gen_moore_offsets_2d else gen_vn_offsets_2d) c
   else conns_nd torus dims (if moore then moore_offsets (length dims) else vn_offsets (length dims)) c.
 
-(* HexGrid._connect_cells_2d:  i = cell.coordinate[axis]; offsets = A if i % 2 else B *)
+(* HexGrid._connect_cells_2d:  i = cell.coordinate[axis]; offsets = A if <test i> else B  (test translated: gen_hex_select) *)
 Definition hex_offsets (c : coord) : list (Z * Z) :=
   let p := nth (Z.to_nat gen_hex_parity_axis) c 0 in
-  if (p mod 2 =? 0)
-  then (if gen_hex_odd_uses_even_table then gen_hex_odd_offsets else gen_hex_even_offsets)
-  else (if gen_hex_odd_uses_even_table then gen_hex_even_offsets else gen_hex_odd_offsets).
+  if gen_hex_select p
+  then (if gen_hex_body_is_even_table then gen_hex_even_offsets else gen_hex_odd_offsets)
+  else (if gen_hex_body_is_even_table then gen_hex_odd_offsets else gen_hex_even_offsets).
 Definition hex_conns (torus : bool) (dims : list Z) (c : coord) : list (coord * coord) :=
   conns_2d torus dims (hex_offsets c) c.
 
@@ -238,6 +238,10 @@ Definition cube_dist (i j i' j' : Z) : Z :=
 (* networkx.Graph(); add_nodes_from(range(n)); add_edges_from(edges): adjacency dict order *)
 Definition net_adj (edges : list (Z * Z)) (u : Z) : list Z :=
   zdedup (flat_map (fun e => if fst e =? u then [snd e] else if snd e =? u then [fst e] else []) edges).
+
+(* networkx.DiGraph: G.neighbors(u) = successors of u, in edge insertion order *)
+Definition dnet_adj (edges : list (Z * Z)) (u : Z) : list Z :=
+  zdedup (flat_map (fun e => if fst e =? u then [snd e] else []) edges).
 
 (* ------------------------------------------------------------------ 4. Voronoi = Delaunay edges (specification) *)
 Definition pt := (Z * Z)%type.
@@ -300,6 +304,7 @@ Inductive space :=
 | SOrth (moore : bool) (dims : list Z) (torus : bool)
 | SHex (dims : list Z) (torus : bool)
 | SNet (n : Z) (edges : list (Z * Z))
+| SDNet (n : Z) (edges : list (Z * Z))          (* Network over a networkx.DiGraph: neighbours = successors *)
 | SVor (pts : list pt).
 
 (* the connection table of the whole space by geometry: per cell (all_cells order) the list of
@@ -311,7 +316,8 @@ Definition space_conns (sp : space) : list (list (Z * cell)) :=
   match sp with
   | SOrth moore dims torus => map (fun c => enc_conns dims (orth_conns moore torus dims c)) (all_coords dims)
   | SHex dims torus => map (fun c => enc_conns dims (hex_conns torus dims c)) (all_coords dims)
-  | SNet n edges => map (fun u => map (fun v => (v, v)) (net_adj edges u)) (zrange 0 (n - 1))
+  | SNet n edges => map (fun u => gen_net_connect (net_adj edges u)) (zrange 0 (n - 1))
+  | SDNet n edges => map (fun u => gen_net_connect (dnet_adj edges u)) (zrange 0 (n - 1))
   | SVor pts => map (fun i => map (fun j => (i * 1000 + j, j)) (delaunay_nbrs pts i)) (idxs pts)
   end.
 
@@ -323,7 +329,9 @@ Inductive op :=
 | Build (tbl : table)                           (* read every cell's connections; tbl = what the implementation holds *)
 | Nbhd (form : Z) (c : cell) (r : Z) (ic : bool) (* cell.get_neighborhood(r, ic); form 0 positional, 1 keyword *)
 | NbhdProp (c : cell)                           (* cell.neighborhood *)
-| Cert (tris : list tri).                       (* VoronoiGrid: triangulation.export_triangles(), validated here *)
+| Cert (tris : list tri)                        (* VoronoiGrid: every triangle of triangulation.triangles, validated here *)
+| Place (a : Z) (c : cell)                      (* CellAgent a enters cell c (created, or moved: agent.cell = c) *)
+| NbhdAgents (form : Z) (c : cell) (r : Z) (ic : bool). (* get_neighborhood(r, ic) as a CellCollection: len and .agents *)
 
 Definition obs_set (l : list Z) : list Z := (if has_dup l then 1 else 0) :: zsort l.
 Definition obs_conn_row (row : list (Z * cell)) : list Z :=
@@ -332,14 +340,50 @@ Definition obs_conns (t : list (list (Z * cell))) : list Z := flat_map obs_conn_
 Definition obs_result (r : result (list cell)) : list Z :=
   match r with Ok v => obs_set v | Err k => [-1; k] end.
 
-Definition obs_cert (sp : space) (tris : list tri) : list Z :=
+(* VoronoiGrid._connect_cells end to end: `full` = every triangle of the Bowyer-Watson triangulation (vertices
+   0..3 = corners of the frame, centroid k = vertex k+4).  The exported triangles and the (cell, (key, target))
+   connect calls are computed by the TRANSLATED source (gen_vor_export, gen_vor_connect). *)
+Definition vconn := (Z * ((Z * Z) * Z))%type.
+Definition vor_emitted (conns : list vconn) (i j : Z) : bool :=
+  existsb (fun e => (fst e =? i) && (snd (snd e) =? j)) conns.
+Definition vor_entry_ok (pts : list pt) (e : vconn) : bool :=
+  let '(x, ((k1, k2), y)) := e in
+  in_range pts x && in_range pts y && (k1 =? x) && (k2 =? y) && delaunay_adj pts x y.
+Definition vor_conn_cert (pts : list pt) (full : list tri) : bool :=
+  let exported := gen_vor_export full in
+  let conns := gen_vor_connect exported full in
+  delaunay_cert pts exported && forallb (vor_entry_ok pts) conns &&
+  (if Z.of_nat (length pts) =? 2 then vor_emitted conns 0 1 && vor_emitted conns 1 0 else true).
+Definition vor_cell_codes (conns : list vconn) (i : Z) : list Z :=
+  zdedup (flat_map (fun e => let '(x, ((k1, k2), y)) := e in
+                             if x =? i then [(k1 * 1000 + k2) * 1000000 + y] else []) conns).
+
+Definition obs_cert (sp : space) (full : list tri) : list Z :=
   match sp with
-  | SVor pts => (if delaunay_cert pts tris then 1 else 0) :: zsort (tri_edges tris)
+  | SVor pts =>
+      let exported := gen_vor_export full in
+      let conns := gen_vor_connect exported full in
+      (if vor_conn_cert pts full then 1 else 0) :: zsort (tri_edges exported) ++
+      (-8) :: flat_map (fun i => (-5) :: zsort (vor_cell_codes conns i)) (idxs pts)
   | _ => [-2]
   end.
 
-Record state := { st_tbl : option table; st_cache : cache }.
-Definition init_state : state := {| st_tbl := None; st_cache := [] |}.
+(* agents: (agent id, cell) in order of arrival; a cell's _agents list = its agents in that order *)
+Definition placement := list (Z * cell).
+Definition agents_at (ag : placement) (c : cell) : list Z := map fst (filter (fun p => snd p =? c) ag).
+(* agent.cell = c : leave the old cell (if any), append to the new one *)
+Definition place (ag : placement) (a : Z) (c : cell) : placement := filter (fun p => negb (fst p =? a)) ag ++ [(a, c)].
+(* CellCollection.agents: chain over the cells' agent lists *)
+Definition agents_in (ag : placement) (cells : list cell) : list Z := flat_map (agents_at ag) cells.
+(* len(collection), then the agents as a set *)
+Definition obs_collection (ag : placement) (r : result (list cell)) : list Z :=
+  match r with
+  | Ok v => Z.of_nat (length v) :: obs_set (agents_in ag v)
+  | Err k => [-1; k]
+  end.
+
+Record state := { st_tbl : option table; st_cache : cache; st_agents : placement }.
+Definition init_state : state := {| st_tbl := None; st_cache := []; st_agents := [] |}.
 
 Section Step.
   Variable pI pG : option (list cparam).
@@ -350,7 +394,7 @@ Section Step.
     match o with
     | Build tbl =>
         (match st_tbl st with
-         | None => {| st_tbl := Some tbl; st_cache := st_cache st |}
+         | None => {| st_tbl := Some tbl; st_cache := st_cache st; st_agents := st_agents st |}
          | Some _ => st
          end, obs_conns (space_conns sp))
     | Nbhd form c r ic =>
@@ -359,7 +403,7 @@ Section Step.
         | Some t =>
             if cell_exists t c then
               let res := get_neighborhood (conn_of t) pI pG form c r ic (st_cache st) in
-              ({| st_tbl := Some t; st_cache := fst res |}, obs_result (snd res))
+              ({| st_tbl := Some t; st_cache := fst res; st_agents := st_agents st |}, obs_result (snd res))
             else (st, [-2])
         end
     | NbhdProp c =>
@@ -368,10 +412,31 @@ Section Step.
         | Some t =>
             if cell_exists t c then
               let res := neighborhood_prop (conn_of t) pI pG cprop c (st_cache st) in
-              ({| st_tbl := Some t; st_cache := fst res |}, obs_result (snd res))
+              ({| st_tbl := Some t; st_cache := fst res; st_agents := st_agents st |}, obs_result (snd res))
             else (st, [-2])
         end
     | Cert tris => (st, obs_cert sp tris)
+    | Place a c =>
+        match st_tbl st with
+        | None => (st, [-2])
+        | Some t =>
+            if cell_exists t c then
+              let ag := place (st_agents st) a c in
+              ({| st_tbl := Some t; st_cache := st_cache st; st_agents := ag |}, obs_set (agents_at ag c))
+            else (st, [-2])
+        end
+    | NbhdAgents form c r ic =>
+        (* the CellCollection returned by get_neighborhood: its length and its agents, read NOW
+           (the cached dict holds the cells' live agent lists) *)
+        match st_tbl st with
+        | None => (st, [-2])
+        | Some t =>
+            if cell_exists t c then
+              let res := get_neighborhood (conn_of t) pI pG form c r ic (st_cache st) in
+              ({| st_tbl := Some t; st_cache := fst res; st_agents := st_agents st |},
+               obs_collection (st_agents st) (snd res))
+            else (st, [-2])
+        end
     end.
 
   Fixpoint run_ops (st : state) (ops : list op) : list (list Z) :=
